@@ -657,8 +657,8 @@ func c02Configs(tier string) []c02Cfg {
 	}
 	bases := []base{{3, 2, false, 3, true}, {3, 2, true, 2, false}, {4, 2, false, 2, false}, {3, 3, false, 2, false}, {4, 3, true, 1, true}}
 	if tier == "thorough" {
-		bases = []base{{3, 2, false, 3, true}, {3, 2, true, 3, true}, {4, 2, false, 2, true}, {5, 2, true, 2, false},
-			{3, 3, false, 2, false}, {3, 3, true, 2, false}, {4, 3, false, 1, true}, {5, 3, false, 1, false}, {5, 3, true, 1, false}}
+		bases = []base{{3, 2, false, 3, true}, {3, 2, true, 3, true}, {4, 2, false, 3, true}, {5, 2, true, 2, true},
+			{3, 3, false, 2, true}, {3, 3, true, 2, false}, {4, 3, false, 2, false}, {4, 3, true, 1, true}, {5, 3, false, 1, true}, {5, 3, true, 2, false}}
 	}
 	per := make([][]c02Cfg, len(bases))
 	for bi, b := range bases {
